@@ -211,6 +211,13 @@ func Explore(c *fw.Ctx, cfg Config, setup Setup) Stats {
 			st.Exhaustive = false
 			break
 		}
+		if w.StepLimit {
+			after(true) // the scenario wrapper reports it
+			w.Abort()
+			st.Exhaustive = false
+			c.NotExhaustive("an execution exceeded the step limit; the exploration of this scenario stopped there")
+			break
+		}
 		complete := !w.Stopped
 		if complete {
 			st.Complete++
